@@ -218,6 +218,15 @@ for n, d in (("ctx0_default_ids", "empty context, default identities"), ("ctx2_e
     H("s10p_generate_ke3_" + n, "verif_kani_tripledh::s10p_generate_ke3_" + n,
       "TripleDh::generate_ke3 (derive_3dh_keys stubbed by its reference S11; iterator arguments monomorphised as single slices): Ok <=> received MAC == MAC(Km2, Hash(preamble)); session key; client MAC over Hash(preamble||server_mac); else InvalidLoginError",
       d + "; request, response, KE2 message, client state, keys symbolic", covers=["accept", "reject"], loops=SLICE_LOOPS + KEYLOOPS, timeout=2700, mem_gb=40, stretch=True)
+H("s10q_generate_ke3_small", "verif_kani_tripledh::s10q_generate_ke3_small",
+  "TripleDh::generate_ke3 with one-byte transcript parts (derive_3dh_keys stubbed by its reference): order of context, id_u, request, id_s, response, server nonce and key share in the transcript; which keys enter the three DHs; Ok <=> MAC exact; client MAC over transcript||received MAC; else InvalidLoginError",
+  "context 1 byte, four 1-byte parts, KE2 message, client state, keys symbolic", covers=["accept", "reject"], loops=SLICE_LOOPS + KEYLOOPS, timeout=2400, mem_gb=34, stretch=True)
+H("s10q_generate_ke2_small", "verif_kani_tripledh::s10q_generate_ke2_small",
+  "TripleDh::generate_ke2 with one-byte transcript parts (derive_3dh_keys stubbed): fresh nonce / ephemeral key, transcript order, server MAC, pending state",
+  "context 1 byte, four 1-byte parts, KE1 message, keys, tape symbolic", covers=["reached"], loops=SLICE_LOOPS + KEYLOOPS, timeout=2400, mem_gb=34, stretch=True)
+H("s10m_generate_ke3_mac_exact", "verif_kani_tripledh::s10m_generate_ke3_mac_exact",
+  "TripleDh::generate_ke3, fixed transcript and keys, every received MAC: Ok <=> MAC == MAC(Km2, Hash(preamble)); outputs per RFC; else InvalidLoginError (derive_3dh_keys stubbed by its reference)",
+  "one concrete transcript (context 1 byte, four 1-byte parts, concrete nonce and keys); the 8-byte MAC and the hash function symbolic", covers=["accept", "reject"], loops=SLICE_LOOPS + KEYLOOPS, timeout=1200, mem_gb=14)
 H("s10_expand_label_limits", "verif_kani_tripledh::s10_expand_label_limits", "hkdf_expand_label == RFC Expand-Label; 256-byte context refused",
   "context 8 symbolic bytes / 256 bytes", covers=["ok", "256 refused"], timeout=1800, mem_gb=18)
 
